@@ -9,7 +9,9 @@ from ..alphabet import V_SCALARS
 from .common import Outcome, Part, viol, call
 
 LEVEL = "exploration"
-RULE = ("single-claim sets: name x value (JSON alphabet + time boundaries now-+leeway-+{1,0.5,0}) x every combination of "
+RULE = ("E2: breadth-first search (depth 2, thorough 3; fresh import per transition) over 52 validations by ClaimsRegistry, JWTClaimsRegistry and two "
+        "application subclasses, each compared with its verdict as the first call of a process; exp x nbf x iat boundary triples x leeway; "
+        "single-claim sets: name x value (JSON alphabet + time boundaries now-+leeway-+{1,0.5,0}) x every combination of "
         "essential/value/values/allow_blank (requested values: same, other, '', prefix, extension of the claim) x now x leeway x "
         "explicit/default now; then all ordered pairs and triples over a reduced alphabet. A case is non-trivial when the "
         "request or a built-in rule actually constrains the claim; distinct = distinct (claims, options, now, leeway)")
@@ -198,7 +200,126 @@ def h_multi(ctx):
     return Outcome("|".join(sorted(buckets)), vs, nontrivial=(names, lw), n=n, nt_keys=nt)
 
 
+def h_times(ctx):
+    """exp, nbf and iat together: every combination of boundary values (and absence) of the three time claims."""
+    now = ctx.choose("now", NOWS[1:])
+    lw = ctx.choose("leeway", LEEWAYS)
+    default_now = ctx.choose("default_now", [False, True])
+    lo, hi = now - lw, now + lw
+    cand = ["<absent>", lo - 1, lo + 1, now, hi, hi + 1, float(hi), "soon"]
+    exp = ctx.choose("exp", cand)
+    vs, n, buckets, nt = [], 0, set(), []
+    for nbf, iat in itertools.product(cand, repeat=2):
+        claims = {k: v for k, v in (("sub", "u"), ("exp", exp), ("nbf", nbf), ("iat", iat)) if v != "<absent>"}
+        for options in ({}, {"exp": {"essential": True}}):
+            b, v1, ok = evaluate(copy.deepcopy(claims), options, now, lw, default_now)
+            n += 1
+            buckets.add(b)
+            vs += v1
+            nt.append((repr(exp), repr(nbf), repr(iat), lw, bool(options), default_now))
+    return Outcome("|".join(sorted(buckets)), vs, nontrivial=(repr(exp), lw, default_now), n=n, nt_keys=nt)
+
+
+# ------------------------------------------------------------------ E2: registries of several classes, one after another
+NOW = 1_700_000_000
+HIST_CLAIMS = {
+    "expired": {"exp": NOW - 100}, "fresh": {"exp": NOW + 100, "iat": NOW - 5}, "exp-not-a-number": {"exp": "soon"}, "nbf-in-future": {"nbf": NOW + 100},
+    "iat-in-future": {"iat": NOW + 100}, "iss-good": {"iss": "https://good.example"}, "iss-evil": {"iss": "https://evil.test"}, "iss-blank": {"iss": ""},
+    "aud-list": {"aud": ["a", "b"]}, "scope-odd": {"scope": "admin"}, "nothing": {"sub": "u"},
+}
+HIST_OPTIONS = {"none": {}, "iss": {"iss": {"essential": True, "value": "https://good.example"}}, "aud": {"aud": {"essential": True, "value": "b"}},
+                "aud-miss": {"aud": {"values": ["x", "y"]}}, "exp-essential": {"exp": {"essential": True}}, "scope": {"scope": {"values": ["read", "write"]}}}
+
+
+class RegistryHistories:
+    """ClaimsRegistry, JWTClaimsRegistry and two application subclasses (the documented way to add rules: validate_<claim> methods)
+    used one after another in one process; each validation must give what it gives as the first call of a fresh process."""
+    fresh_import = True
+    replay_id = {"cls": "RegistryHistories"}
+
+    def __init__(self):
+        self.MENU = [(cls, o, c) for cls in ("ClaimsRegistry", "JWTClaimsRegistry", "AppRegistry(JWTClaimsRegistry)", "PlainAppRegistry(ClaimsRegistry)")
+                     for o, c in (("none", "expired"), ("none", "exp-not-a-number"), ("none", "nbf-in-future"), ("none", "iat-in-future"), ("none", "fresh"),
+                                  ("iss", "iss-evil"), ("iss", "iss-good"), ("iss", "iss-blank"), ("aud", "aud-list"), ("aud-miss", "aud-list"),
+                                  ("exp-essential", "nothing"), ("scope", "scope-odd"), ("none", "scope-odd"))]
+        self._base = {}
+
+    def make(self):
+        return {"n": 0}
+
+    def apply(self, st, op):
+        from joserfc.jwt import JWTClaimsRegistry
+        from joserfc.rfc7519.registry import ClaimsRegistry
+        from joserfc.errors import InvalidClaimError
+        cls, o, c = op
+
+        class AppRegistry(JWTClaimsRegistry):
+            def validate_iss(self, value):                      # the application's own issuer rule replaces the value comparison
+                if not isinstance(value, str) or not value.endswith(".test"):
+                    raise InvalidClaimError("iss")
+
+            def validate_scope(self, value):
+                if value == "admin":
+                    raise InvalidClaimError("scope")
+
+        class PlainAppRegistry(ClaimsRegistry):
+            def validate_exp(self, value):                      # an application that spells "exp" its own way
+                if value != "soon":
+                    raise InvalidClaimError("exp")
+        klass = {"ClaimsRegistry": ClaimsRegistry, "JWTClaimsRegistry": JWTClaimsRegistry, "AppRegistry(JWTClaimsRegistry)": AppRegistry,
+                 "PlainAppRegistry(ClaimsRegistry)": PlainAppRegistry}[cls]
+        opts = copy.deepcopy(HIST_OPTIONS[o])
+        claims = copy.deepcopy(HIST_CLAIMS[c])
+        st["n"] += 1
+        if klass in (JWTClaimsRegistry, AppRegistry):
+            r = call(lambda: klass(now=NOW, leeway=0, **opts).validate(claims))
+        else:
+            r = call(lambda: klass(**opts).validate(claims))
+        obs = ("accepted",) if r.ok else ("rejected", type(r.exc).__name__, str(r.exc)[:60])
+        if claims != HIST_CLAIMS[c]:
+            obs += ("claims-modified",)
+        return obs
+
+    def canon(self, st):
+        from ..history import canon_modules
+        return canon_modules("joserfc.rfc7519")
+
+    def bucket(self, obs):
+        return ":".join(obs[:2])
+
+    def baseline(self, op):
+        if op not in self._base:
+            from ..history import fresh_joserfc
+            fresh_joserfc()
+            self._base[op] = self.apply(self.make(), op)
+        return self._base[op]
+
+    def check(self, hist, op, obs, st):
+        base = self.baseline(op)
+        vs = []
+        if obs != base:
+            vs.append(viol(f"the verdict of a validation depends on validations made earlier by other registries [{op[0]}]",
+                           f"after {list(hist)} the call {op} gives {obs}; as the first call of a process it gives {base}"))
+        cls, o, c = op
+        if cls == "JWTClaimsRegistry":
+            ok, errs, open_case = rc.judge(HIST_CLAIMS[c], HIST_OPTIONS[o], NOW, 0)
+            if (obs[0] == "accepted") != ok and not open_case:
+                vs.append(viol("a validation that follows other validations contradicts the request [JWTClaimsRegistry]", f"after {list(hist)}: {op} -> {obs}, reference: ok={ok} {sorted(errs)}"))
+        return vs
+
+
+def make_model(desc):
+    return RegistryHistories()
+
+
+def histories(tier):
+    from ..history import bfs
+    return bfs(RegistryHistories(), 3 if tier == "thorough" else 2, budget_s=1500 if tier == "thorough" else 120)
+
+
 PARTS = [
     Part("single-claim", h_single, split_depth=4),
     Part("multi-claim", h_multi, split_depth=2),
+    Part("time-claims-together", h_times, split_depth=3),
+    Part("registry-histories", custom=histories, engine="E2"),
 ]
